@@ -9,6 +9,7 @@ Pipeline
 """
 from __future__ import annotations
 
+import asyncio
 import copy
 import gc
 import json
@@ -25,7 +26,7 @@ from ..core import Check, MachineryFailure
 
 SPEC = 'SharesIndex/SharesIndex.tla'
 TRACE = 'SharesIndex/SharesIndexTrace.tla'
-ACTIONS = ['Add', 'Remove', 'Update', 'Scan', 'ScanAll', 'Load', 'DiskCreate', 'DiskDelete', 'Touch', 'Collect']
+ACTIONS = ['Add', 'Remove', 'Update', 'Scan', 'ScanAll', 'ScanBegin', 'ScanBeginAll', 'ScanEnd', 'Load', 'DiskCreate', 'DiskDelete', 'Touch', 'Collect']
 MT0 = 1_000_000          # mtime of version v is MT0 + v
 
 # ---------------------------------------------------------------------------
@@ -354,6 +355,7 @@ class PlanBuilder:
             for p in self.replicas_of(x['f']):
                 plan['init'].append([p, int(x['v'])])
         shared: set[str] = set()
+        inflight = False
         for lab in labels:
             name, a = parse_label(lab)
             if name == 'DiskCreate':
@@ -374,6 +376,15 @@ class PlanBuilder:
                 plan['ops'].append(dict(op=name.lower(), d=d, how=rng.choice(['obj', 'str']), queries=self.battery()))
             elif name == 'ScanAll':
                 plan['ops'].append(dict(op='scanall', queries=self.battery()))
+            elif name == 'ScanBegin':
+                inflight = True
+                plan['ops'].append(dict(op='scanbegin', all=False, d=self.dirpath(a[0]), queries=self.battery()))
+            elif name == 'ScanBeginAll':
+                inflight = True
+                plan['ops'].append(dict(op='scanbegin', all=True, d='', queries=self.battery()))
+            elif name == 'ScanEnd':
+                inflight = False
+                plan['ops'].append(dict(op='scanend', queries=self.battery()))
             elif name == 'Collect':
                 plan['ops'].append(dict(op='collect', queries=self.battery()))
             elif name == 'Load':
@@ -383,10 +394,12 @@ class PlanBuilder:
             else:
                 raise MachineryFailure(f'unknown action {name}')
             # now and then a call the manager must refuse
-            if name in ('Add', 'Remove', 'Scan', 'ScanAll') and rng.random() < 0.06 and plan['dirs']:
+            if name in ('Add', 'Remove', 'Scan', 'ScanAll') and not inflight and rng.random() < 0.06 and plan['dirs']:
                 d = rng.choice(plan['dirs'])
                 op = 'add' if d in shared else rng.choice(['remove', 'update'])
                 plan['ops'].append(dict(op=op, d=d, how='str', queries=self.battery()[:2]))
+        if inflight:        # the behaviour stopped with a scan in flight: let it finish
+            plan['ops'].append(dict(op='scanend', queries=self.battery()))
         return plan
 
 
@@ -456,9 +469,41 @@ class Executor:
             create(rel, v)
             events[0]['disk'].append(dict(f=self.comps(root, os.path.join(root, rel)), v=v))
 
+        from unittest.mock import Mock
+        from aioslsk.events import ScanCompleteEvent, SessionInitializedEvent
+        from aioslsk.protocol.messages import SharedFoldersFiles
+
         settings = Settings(credentials={'username': 'me', 'password': 'pw'})
-        manager = SharesManager(settings, EventBus(), AsyncMock())
+        bus = EventBus()
+        network = AsyncMock()
+        manager = SharesManager(settings, bus, network)
         held = []                 # directory objects a caller would still hold
+        told = []                 # counts announced by a completed scan(): event + report to the server
+
+        async def on_scan_complete(event):
+            told.append([int(event.folder_count), int(event.file_count)])
+        bus.register(ScanCompleteEvent, on_scan_complete)     # (the bus holds listeners weakly)
+
+        async def capture_report(*messages):
+            for msg in messages:
+                if isinstance(msg, SharedFoldersFiles.Request):
+                    told.append([int(msg.shared_folder_count), int(msg.shared_file_count)])
+        network.send_server_messages = capture_report
+        # a session exists, so that scan() reports the shares to the server
+        await bus.emit(SessionInitializedEvent(session=Mock(), raw_message=Mock()))
+
+        # a scan in two steps: executor jobs submitted while `holding` are kept back until 'scanend'
+        holding = [False]
+        jobs = []
+        scan_task = [None]
+
+        def gate(func, a):
+            if not holding[0]:
+                return None
+            fut = loop.create_future()
+            jobs.append((fut, func, a))
+            return fut
+        loop.executor_gate = gate
 
         def item_key(it):
             try:
@@ -499,7 +544,7 @@ class Executor:
                 except Exception as e:  # an observation, judged by the trace spec
                     exc = type(e).__name__
                 qs.append(dict(q=codes(q), m=m, exc=exc, res=res))
-            return dict(dirs=dirs, items=items, stats=stats, queries=qs)
+            return dict(dirs=dirs, items=items, stats=stats, queries=qs, told=list(told))
 
         def find_obj(path):
             for d in manager.shared_directories:
@@ -522,8 +567,41 @@ class Executor:
                     events.append(dict(ev='touch', f=self.comps(root, p), v=op['v']))
                 continue
             ev = dict(ev=kind, exc='none')
+            told.clear()
             try:
-                if kind == 'add':
+                if kind == 'scanbegin':
+                    ev['all'] = bool(op['all'])
+                    path = os.path.join(root, op['d']) if not op['all'] else root
+                    ev['d'] = self.comps(root, path)
+                    obj = None if op['all'] else find_obj(path)
+                    if not op['all'] and obj is None:
+                        raise MachineryFailure(f'plan scans {op["d"]!r}, which is not shared')
+                    holding[0] = True
+                    scan_task[0] = asyncio.ensure_future(manager.scan() if op['all']
+                                                         else manager.scan_directory_files(obj))
+                    del obj
+                    await vloop.settle(loop)
+                    holding[0] = False
+                    if scan_task[0].done():
+                        # nothing went through the executor: the scan was atomic after all
+                        ev['ev'] = 'scanall' if op['all'] else 'scan'
+                        task, scan_task[0] = scan_task[0], None
+                        task.result()
+                elif kind == 'scanend':
+                    if scan_task[0] is None:
+                        continue          # the scan completed atomically at its 'scanbegin'
+                    holding[0] = False
+                    while jobs:
+                        fut, func, a = jobs.pop(0)
+                        if fut.done():
+                            continue
+                        try:
+                            fut.set_result(func(*a))
+                        except Exception as e:  # noqa
+                            fut.set_exception(e)
+                    task, scan_task[0] = scan_task[0], None
+                    await task
+                elif kind == 'add':
                     path = os.path.join(root, op['d'])
                     ev['d'] = self.comps(root, path)
                     held.append(manager.add_shared_directory(path))
@@ -616,7 +694,8 @@ def name_failure(trace, at, prop, k, qinfo=None) -> tuple[str, str]:
     obs = ev.get('obs', {})
     opname = {'add': 'add_shared_directory', 'remove': 'remove_shared_directory', 'scan': 'scan_directory_files',
               'scanall': 'scan', 'load': 'load_from_settings', 'update': 'update_shared_directory',
-              'collect': 'garbage-collection'}.get(ev['ev'], ev['ev'])
+              'collect': 'garbage-collection', 'scanbegin': 'scan-start',
+              'scanend': 'scan-completion'}.get(ev['ev'], ev['ev'])
     if prop in ('QueryExact', 'NoUnsharedResults'):
         qr = obs['queries'][k - 1]
         qtext = _text(qr['q'])
@@ -671,7 +750,13 @@ def name_failure(trace, at, prop, k, qinfo=None) -> tuple[str, str]:
                 f'query {qtext!r} {tail}: {sorted(_text(r["q"]) for r in qr["res"])[:4]} after {opname}')
     if prop == 'StatsEqualIndex':
         folders = len({json.dumps(i['f'][:-1]) for i in obs['items']})
+        if k == 2:
+            return ('C07:scan:announced-counts-differ-from-index',
+                    f'a completed scan() announced {obs.get("told")} (ScanCompleteEvent / SharedFoldersFiles) but the '
+                    f'index holds {len(obs["items"])} files in {folders} folders (after {opname})')
         what = 'folder-count' if obs['stats'][0] != folders else 'file-count'
+        if ev['ev'] == 'scanend':
+            what += ':stale-after-scan-that-was-read-in-flight'
         return (f'C07:get_stats:{what}',
                 f'get_stats() = {obs["stats"]} but the index holds {len(obs["items"])} files in {folders} folders '
                 f'(after {opname})')
@@ -793,7 +878,8 @@ def simulate(chk: Check, cfg: str, num: int, depth: int, seed: int):
 
 def interesting(labels) -> bool:
     names = [parse_label(x)[0] for x in labels]
-    return any(nm in ('Scan', 'ScanAll') for nm in names)
+    return any(nm in ('Scan', 'ScanAll', 'ScanEnd') for nm in names) or \
+        (names and names[-1] in ('ScanBegin', 'ScanBeginAll'))
 
 
 # ---------------------------------------------------------------------------
@@ -847,8 +933,8 @@ def run(chk: Check, args):
 
     rng = random.Random(chk.seed * 7919 + 17)
     n_cover = 350 if thorough else 0
-    n_sim_small = 250 if thorough else 130
-    n_sim_big = 450 if thorough else 200
+    n_sim_small = 250 if thorough else 110
+    n_sim_big = 450 if thorough else 160
     sel = [b for b in cover if interesting(b[1])]
     rng.shuffle(sel)
     chosen = [(b, 'S', 'design-counterexample') for b in counterexamples for _ in range(4 if thorough else 2)]
@@ -908,7 +994,9 @@ def run(chk: Check, args):
         'character classes and case pairs come from the fixed table in harness/props/c07.py (ASCII, Latin accents, '
         'Cyrillic, Greek pairs; digits, CJK, Hangul, kana caseless); Unicode case folding beyond simple pairs, '
         'combining marks and "/" inside queries are outside the alphabet',
-        'histories are sequential (no scan concurrent with add/remove); the executor runs inline',
+        'histories are sequential except that a scan may be split in two steps (the directory walk is held in the '
+        'executor by loop.executor_gate and runs when released); while it is in flight only reads, disk changes and '
+        'update_shared_directory happen - add/remove/load or a second scan during a scan are not exercised',
         'a removed directory object stays referenced until the "collect" step (the caller holds it, and the '
         'item<->directory reference cycle keeps it until the garbage collector runs)',
     ]
